@@ -50,7 +50,7 @@ def _run_bounds(ctx, sizes, chunk, backends):
         with tmp_dir(ctx) as d:
             paths = []
             for k, s in enumerate(sizes):
-                p = d / ('part%d.bin' % k)
+                p = d / ('part%d.bin' % (9 + k))         # part9, part10, ...: given order is not name order
                 write_flat(p, np.zeros((s, 2), dtype=np.int16))
                 paths.append(p)
             r = get_ephys_reader(paths, sample_rate=rate, dtype=np.int16, n_channels=2)
@@ -261,7 +261,7 @@ def run(ctx):
     # C->S
     recs = []
     with ctx.guard('random', None, seconds=300):
-        recs = _random_records(ctx, 120 if ctx.quick else 1200)
+        recs = _random_records(ctx, 120 if ctx.quick else 6000)
     if not recs:
         return
     # outputs that differ from the transcription are judged by the P-layer together with the random runs
@@ -281,6 +281,17 @@ def run(ctx):
                 r['mode'], clause), dict(record=r, clause=clause))
     ctx.sample(recs[0])
     ctx.sample(recs[1])
+    # U: the chunkings the repository's own tests ask for
+    up = ctx.upstream(('phylib/io/tests/test_array.py', 'phylib/io/tests/test_traces.py'), 'Chunking')
+    if up:
+        for rid, clause in ctx.validate('Trace_Chunking', 'Trace_Chunking.cfg', up, timeout=1500,
+                                        note='calls recorded from the repository\'s own tests'):
+            r = up[rid - 1]
+            if clause in I_CLAUSES:
+                ctx.note(r['mode'], 'a %s run of the repository\'s tests differs from the transcription (clause %s)' % (r['mode'], clause))
+                continue
+            ctx.violation('upstream', 'a %s run made by %s is rejected by the specification: clause %s' % (
+                r['mode'], r.get('test'), clause), dict(record=r, clause=clause))
 
 
 def replay(ctx, doc):
